@@ -73,6 +73,16 @@ theorem frame_statement_effects (m : RMatrix) (n i : Nat) (h : frameIdx m n = so
       ({ m with cur := some i }).modFrame i fun f => { f with groups := f.groups ++ [groupOf f ⟨n, name, gid, members⟩] }) :=
   ⟨fun text => effect_cm_bo m n i text h, fun ecus => effect_tx m ⟨n, ecus⟩ i h, fun name gid members => effect_grp m ⟨n, name, gid, members⟩ i h⟩
 
+/-- the written frame section of a file builds, in the matrix under construction, one frame per `BO_` line in the order of the file, each with
+the identifier its number denotes, its name, length, first sender and its signals in their order (numbers as they are read back); no
+error is printed, nothing else changes -/
+theorem frame_section_builds_frames (bs : List Block) (ks : List (Nat × Bool)) (m : RMatrix) (hm : m.pending = none)
+    (hw : ∀ b ∈ bs, wfBlock b = true) (hk : bs.map (fun b => boKey b.bo) = ks.map some) :
+    ((writeFrames bs).foldl stepFile m).frames = m.frames ++ framesOfBlocks bs ks ∧
+    ((writeFrames bs).foldl stepFile m).pending = none ∧
+    ((writeFrames bs).foldl stepFile m).ecus = m.ecus ∧ ((writeFrames bs).foldl stepFile m).errors = m.errors :=
+  FileProofs.frames_fold bs ks m hm hw hk
+
 /-! ## non-vacuity: two frames with the same number in the two formats are told apart -/
 def twoFrames : RMatrix :=
   readFile ["BO_ 291 Std: 8 E1".toList, " SG_ a : 0|8@1+ (1,0) [0|0] \"\" E2".toList, "BO_ 2147483939 Ext: 8 E1".toList,
